@@ -1,5 +1,6 @@
 #![allow(dead_code, unused_imports)]
 mod c13;
+mod c14;
 mod harness;
 mod probes;
 mod rng;
@@ -13,7 +14,7 @@ use sim::{SimConfig, Strategy};
 use world::{ShellSpec, World};
 
 fn props() -> Vec<Box<dyn Prop>> {
-    vec![Box::new(c13::C13)]
+    vec![Box::new(c13::C13), Box::new(c14::C14)]
 }
 
 fn find_prop(id: &str) -> Option<Box<dyn Prop>> {
@@ -33,8 +34,9 @@ fn demo(script: &str, seeds: u64, preempt: u32) {
             dash_c: true,
             ..Default::default()
         };
-        let key = match shellrun::run_script(&spec, &cfg, Decider::record(Rng::stream(1, 0, seed))) {
-            Ok(o) => format!(
+        let o = shellrun::run_script(&spec, &cfg, Decider::record(Rng::stream(1, 0, seed)));
+        let key = match &o.panic {
+            None => format!(
                 "main_done={} stalled={} status={}\nstdout={:?}\nstderr={:?}\nprocs={:?}",
                 o.outcome.main_done,
                 o.outcome.stalled,
@@ -47,7 +49,7 @@ fn demo(script: &str, seeds: u64, preempt: u32) {
                     .map(|p| format!("{}:{}{}", p.pid, p.state, if p.unreaped { "!" } else { "" }))
                     .collect::<Vec<_>>()
             ),
-            Err(e) => format!("PANIC {e}"),
+            Some(e) => format!("PANIC {e}"),
         };
         *outcomes.entry(key).or_insert(0) += 1;
     }
@@ -170,7 +172,46 @@ fn main() {
             let path = args.get(2).expect("replay file");
             let quiet = args.iter().any(|a| a == "--quiet");
             let text = std::fs::read_to_string(path).expect("cannot read replay file");
-            let rf: ReplayFile = serde_json::from_str(&text).expect("bad replay file");
+            let raw: serde_json::Value = serde_json::from_str(&text).expect("bad replay file");
+            if raw.get("hang").and_then(|h| h.as_bool()) == Some(true) {
+                // A recorded hang: re-run the case by (seed, index) under a watchdog.
+                let id = raw["property"].as_str().unwrap_or("").to_string();
+                let seed = raw["seed"].as_u64().unwrap_or(1);
+                let index = raw["index"].as_u64().unwrap_or(0);
+                let tier = if raw["tier"].as_str() == Some("thorough") { Tier::Thorough } else { Tier::Quick };
+                let Some(prop) = find_prop(&id) else {
+                    eprintln!("unknown property {id}");
+                    std::process::exit(2);
+                };
+                let limit: u64 = std::env::var("VERIF_CASE_TIMEOUT").ok().and_then(|s| s.parse().ok()).unwrap_or(120);
+                let (tx, rx) = std::sync::mpsc::channel();
+                std::thread::spawn(move || {
+                    let mut stats = harness::Stats::default();
+                    let r = prop.run_case(seed, index, tier, &mut stats);
+                    tx.send(r.map(|f| f.class)).ok();
+                });
+                match rx.recv_timeout(std::time::Duration::from_secs(limit)) {
+                    Err(_) => {
+                        if !quiet {
+                            println!("reproduced: case {index} of seed {seed} still does not finish within {limit}s\nVIOLATION property={id} replay=<this file>");
+                        }
+                        std::process::exit(1);
+                    }
+                    Ok(Some(class)) => {
+                        if !quiet {
+                            println!("case finishes now, with violation class={class}");
+                        }
+                        std::process::exit(3);
+                    }
+                    Ok(None) => {
+                        if !quiet {
+                            println!("not reproduced: the case finishes and satisfies the property");
+                        }
+                        std::process::exit(0);
+                    }
+                }
+            }
+            let rf: ReplayFile = serde_json::from_value(raw).expect("bad replay file");
             let Some(prop) = find_prop(&rf.property) else {
                 eprintln!("unknown property {}", rf.property);
                 std::process::exit(2);
